@@ -9,12 +9,14 @@ from hv.core import Campaign, CaseInfo, hta_call, require
 from hv.gen.files import scratch_dir, write_case
 from hv.gen.kineto_sim import Opts, sim_case
 from hv.model.raw import complete_rows, is_device, links
+from hv.model.trace import kept_after_load
 
 ID = "C02"
 RULE = ("G-sim traces (1-3 ranks; launches of kernels/memcpy/memset on 1-3 streams, stream and device synchronisation calls "
         "with their Stream Sync / Context Sync records, non-launching runtime calls carrying an id without partner) with fault "
         "injection (launch call dropped, activity dropped, correlation id stripped from the activity, sync record dropped); "
-        "parse-only and full load. Oracle: per row the link equals the model (-1 no id / 0 partner absent / id of the unique "
+        "parse-only and full load (incl. loads that trim the trailing profiler step), and files whose positions exceed 127 while "
+        "all correlation ids are below 128 (narrow column dtypes). Oracle: per row the link equals the model (-1 no id / 0 partner absent / id of the unique "
         "opposite-side row with the same correlation id), checked in both directions, plus the 'never' clauses directly on every "
         "positive link (same id, opposite sides, mutual). Non-trivial: one file has >= 1 mutual pair, >= 1 missing partner and "
         ">= 1 sync record on stream -1. Distinct = distinct canonical case JSON.")
@@ -36,9 +38,20 @@ def check(case: Dict[str, Any]) -> CaseInfo:
     for rd in case["ranks"]:
         rows = complete_rows(rd["events"])
         want = links(rows)
-        by_id = {r.id: r for r in rows}
         df = t.get_trace(rd["rank"])
         got = {int(i): int(v) for i, v in zip(df["index"], df["index_correlation"])}
+        if not case["parse_only"]:
+            # loading may trim the trailing profiler step (C12): the links of the rows that remain must still be
+            # mutual and point at rows that are present
+            keep, free = kept_after_load(rows, include_last=False)
+            keep |= free & set(got)
+            if len(keep) < len(rows):
+                classes.append("trimmed_load")
+            rows = [r for r in rows if r.id in keep]
+            want = {i: v for i, v in want.items() if i in keep}
+            for i, v in want.items():
+                assert v is None or v <= 0 or v in keep, "model: a kept row is linked to a dropped row"
+        by_id = {r.id: r for r in rows}
         require(sorted(got) == sorted(want), "rows:ids", lambda: f"rank {rd['rank']}: {sorted(got)} vs {sorted(want)}")
         for i, w in want.items():
             assert w is not None, "generator produced an ambiguous correlation id"
@@ -79,6 +92,8 @@ def check(case: Dict[str, Any]) -> CaseInfo:
         if n_pair and n_missing and n_sync_m1:
             nontrivial = True
     classes.append("parse_only" if case["parse_only"] else "full_load")
+    if case.get("big"):
+        classes.append("positions_above_127_with_small_correlation_ids")
     if len(case["ranks"]) > 1:
         classes.append("multi_rank")
     return CaseInfo(nontrivial=nontrivial, classes=classes)
@@ -87,14 +102,17 @@ def check(case: Dict[str, Any]) -> CaseInfo:
 @st.composite
 def c02_case(draw):
     parse_only = draw(st.sampled_from([True, False]))
-    o = Opts(steps=[0, 1, 2, 3] if parse_only else [0, 1], w_sync=3, max_top=4, event_sync=True)
+    big = draw(st.sampled_from([False, False, False, True]))
+    o = Opts(steps=[0, 1, 2, 3], w_sync=3, max_top=4, event_sync=True,
+             pad_entries=draw(st.sampled_from([130, 140, 200])) if big else 0, corr_base=draw(st.sampled_from([0, 1, 20])) if big else None)
     case = draw(sim_case(o, max_ranks=3))
+    case["big"] = big
     case["parse_only"] = parse_only
     return case
 
 
 def view(case):
-    return {"parse_only": case["parse_only"], "ranks": [
+    return {"parse_only": case["parse_only"], "big": case.get("big"), "ranks": [
         {"rank": r["rank"], "rows[id,name,stream,corr]": [[x.id, x.name, x.stream, x.correlation] for x in complete_rows(r["events"])]}
         for r in case["ranks"]]}
 
@@ -102,5 +120,6 @@ def view(case):
 def campaigns(tier: str) -> List[Campaign]:
     return [Campaign("links", c02_case(), check, quick=480, thorough=32000, quick_shards=8,
                      required_classes={"mutual_pair": 0.5, "missing_partner": 0.3, "sync_on_stream_-1": 0.1,
-                                       "activity_without_launch": 0.05, "event_sync": 0.05, "activity_without_id": 0.03, "nontrivial": 0.05},
+                                       "activity_without_launch": 0.05, "event_sync": 0.05, "trimmed_load": 0.05,
+                                       "positions_above_127_with_small_correlation_ids": 0.1, "activity_without_id": 0.03, "nontrivial": 0.05},
                      sample_view=view)]
